@@ -454,3 +454,81 @@ Proof.
   split; [exact (fixed_consistent_lemma id_all id_rev id_all_rev)|].
   split; [exact (all_inj id_all id_rev id_all_rev) | exact id_split_concat].
 Qed.
+
+(* ---- NewFromCMap with an arbitrary CMap ------------------------------------------- *)
+Lemma tbl_all_in l c code : tbl_all l c = Some code -> In (code, c) l.
+Proof.
+  induction l as [|[code' c'] r IH]; cbn [tbl_all]; [discriminate|].
+  destruct (tbl_all r c) eqn:E.
+  - intros H; inversion H; subst. right. apply IH. reflexivity.
+  - destruct (c =? c') eqn:Ec; [|discriminate].
+    intros H; inversion H; subst. apply N.eqb_eq in Ec; subst. left; reflexivity.
+Qed.
+
+Lemma tbl_rev_opt_in l code : forall x, tbl_rev_opt l code = Some x -> In code (map fst l).
+Proof.
+  induction l as [|[c1 x1] r IH]; intros x; cbn [tbl_rev_opt map fst In]; [discriminate|].
+  destruct (tbl_rev_opt r code) eqn:E1; [intros _; right; exact (IH _ eq_refl)|].
+  destruct (bytes_eqb code c1) eqn:Eb; [|discriminate]. apply bytes_eqb_eq in Eb. intros _. left; auto.
+Qed.
+
+Lemma tbl_rev_nodup l code c : NoDup (map fst l) -> In (code, c) l -> tbl_rev_opt l code = Some c.
+Proof.
+  induction l as [|[code' c'] r IH]; cbn [tbl_rev_opt map In fst]; [tauto|].
+  intros ND H. apply NoDup_cons_iff in ND as [Hn ND]. destruct H as [H|H].
+  - inversion H; subst.
+    destruct (tbl_rev_opt r code) eqn:E.
+    + exfalso. apply Hn. exact (tbl_rev_opt_in _ _ _ E).
+    + rewrite bytes_eqb_refl. reflexivity.
+  - rewrite (IH ND H). reflexivity.
+Qed.
+
+(* if no code occurs twice in cmap.All, the code -> CID table inverts the CID -> code table *)
+Lemma fromcmap_inverse_lemma l : NoDup (map fst l) ->
+  forall c code, tbl_all l c = Some code -> tbl_rev l code = c.
+Proof.
+  intros ND c code H. apply tbl_all_in in H. unfold tbl_rev. rewrite (tbl_rev_nodup _ _ _ ND H). reflexivity.
+Qed.
+
+(* the repaired table inverts for every CMap *)
+Lemma tbl_all_sound_aux_inv whole l c code : tbl_all_sound_aux whole l c = Some code -> tbl_rev whole code = c.
+Proof.
+  induction l as [|[code' c'] r IH]; cbn [tbl_all_sound_aux]; [discriminate|].
+  destruct (tbl_all_sound_aux whole r c) eqn:E.
+  - intros H; inversion H; subst. apply IH. reflexivity.
+  - destruct ((c =? c') && (tbl_rev whole code' =? c)) eqn:Ec; [|discriminate].
+    intros H; inversion H; subst. apply andb_true_iff in Ec as [_ Ec]. apply N.eqb_eq in Ec. exact Ec.
+Qed.
+
+Lemma fromcmap_sound_inverse_lemma l c code : tbl_all_sound l c = Some code -> tbl_rev l code = c.
+Proof. apply tbl_all_sound_aux_inv. Qed.
+
+(* a child CMap that re-maps a code of its parent: the pair of the parent stays in all[] *)
+Definition recoded_example : list (ccode * cid) := [([36; 103], 912); ([36; 103], 7926)].
+
+Lemma fromcmap_inverse_refuted_lemma :
+  exists l c code, tbl_all l c = Some code /\ tbl_rev l code <> c /\
+    (* consequence: the width stored for the CID is not the width its code reads back with *)
+    (let '(s, r) := fshow (tbl_all l) (finit 1000%Z) c [227; 130; 135] 500%Z in
+     r = Some code /\ ui_cid (fget (tbl_rev l) s code) <> c /\ ui_w (fget (tbl_rev l) s code) = 0%Z).
+Proof.
+  exists recoded_example, 912, [36; 103]. vm_compute. repeat split; discriminate.
+Qed.
+
+(* the guarded statement: first text and width win, for every CMap without re-coded entries *)
+Lemma fromcmap_first_wins_lemma l : NoDup (map fst l) ->
+  forall w0 shown c code t w, c <> 0 -> tbl_all l c = Some code ->
+    first_of c shown = Some (t, w) ->
+    fget (tbl_rev l) (fst (fshow_all (tbl_all l) (finit w0) shown)) code = mkui c w t.
+Proof.
+  intros ND. exact (fixed_first_wins_lemma (tbl_all l) (tbl_rev l) (fromcmap_inverse_lemma l ND)).
+Qed.
+
+(* and for the repaired table, for every CMap *)
+Lemma fromcmap_sound_first_wins_lemma l :
+  forall w0 shown c code t w, c <> 0 -> tbl_all_sound l c = Some code ->
+    first_of c shown = Some (t, w) ->
+    fget (tbl_rev l) (fst (fshow_all (tbl_all_sound l) (finit w0) shown)) code = mkui c w t.
+Proof.
+  exact (fixed_first_wins_lemma (tbl_all_sound l) (tbl_rev l) (fromcmap_sound_inverse_lemma l)).
+Qed.
